@@ -329,7 +329,25 @@ int main(int argc, char **argv)
             w_apply(w_ops[o]);
             transitions++;
             if (mc_terminal) terminal_count++;
+#ifndef W_AUDIT_NEW_STATES_ONLY
             if (!mc_terminal && !mc_branch_dead) w_audit();
+#else
+            /* the world's key contains everything its audit observes (implementation-side bytes included), so the audit verdict is a
+             * function of the key: it is evaluated once per distinct state instead of once per transition */
+            if (!mc_terminal && !mc_branch_dead && !mc_viol_now) {
+                size_t h; int found = 0;
+                mc_kbn = 0; w_canon();
+                if (mc_tabsz) {
+                    h = mc_hash(mc_kb, mc_kbn) & (mc_tabsz - 1);
+                    while (mc_tab[h] >= 0) {
+                        mc_state *st = &mc_states[mc_tab[h]];
+                        if (st->keylen == mc_kbn && memcmp(mc_keys + st->keyoff, mc_kb, mc_kbn) == 0) { found = 1; break; }
+                        h = (h + 1) & (mc_tabsz - 1);
+                    }
+                }
+                if (!found) w_audit();
+            }
+#endif
             if (mc_viol_now) {
                 mc_viol *v = &mc_viols[mc_nviols++];
                 memcpy(v->h, hist, (size_t)n * sizeof hist[0]); v->h[n] = w_ops[o]; v->n = n + 1;
